@@ -32,10 +32,12 @@ def kernel_family(rep, fb, tier, kre, fre, floors=None):
     kbound.rule_kbound(rep, fb, select_site=lambda s: bool(fpat.search(s.func["name"] or "") or kpat.search(s.name)), floor=0)
     if tier == "thorough" and sites_i:
         # re-run the call-site rules on every template instantiation (resolved callees, implicit conversions)
-        for fn, nm in ((cs.rule_errflow, "sites"), (cs.rule_role, "role"), (cs.rule_fresh, "fresh")):
+        pattern_obl = {r0.name: r0.obligations for r0 in rep.rules}
+        for fn, nm, rn in ((cs.rule_errflow, "sites", "ERRFLOW.handled"), (cs.rule_role, "role", "ROLE.kernel-args"), (cs.rule_fresh, "fresh", "FRESH.kernel-out")):
             rep.no_floor_table = True
             try:
-                fn(rep, fb, sites=sites_i, floor=1)
+                # vacuity is guarded at pattern level; an instantiation rerun may only be empty where the pattern-level rule is empty too
+                fn(rep, fb, sites=sites_i, floor=1 if pattern_obl.get(rn, 1) > 0 else 0)
             finally:
                 rep.no_floor_table = False
             rep.rules[-1].name += "@instantiations"
